@@ -337,6 +337,16 @@ func (x *X) obligation(st *State, kind, label string, goal Term, pos token.Pos, 
 	if props == nil {
 		props = x.props
 	}
+	if x.topC != nil && label != "" {
+		// labels of call-site obligations carry the callee and ordinal first
+		base := label
+		if i := strings.LastIndex(base, ":"); i >= 0 {
+			base = base[i+1:]
+		}
+		if extra := x.topC.AlsoProps[base]; len(extra) > 0 && explicit {
+			props = append(append([]string{}, props...), extra...)
+		}
+	}
 	x.vc.oblige(&Obligation{Name: name, Kind: kind, Func: x.topName(), Goal: g, Pos: x.posStr(pos), Text: text, Props: props, Explicit: explicit})
 }
 
